@@ -81,7 +81,7 @@ def run(ctx):
     # ---- C
     rng = ctx.rng(12)
     for _ in range(ctx.n(40, 800)):
-        ts, info = gen.gen_ts(rng, historical=0.6, internal_samples=0.6, polytomy=0.1, n=int(rng.integers(3, 8)),
+        ts, info = gen.gen_ts(rng, historical=0.6, internal_samples=0.6, polytomy=0.1, extra_flags=0.4, n=int(rng.integers(3, 8)),
                               muts_per_edge=float(rng.choice([0.3, 1, 3])))
         if ts.num_mutations == 0:
             continue
